@@ -282,3 +282,87 @@ pub fn c07_lab_delta_e_f32_finite() {
     assert!(x.delta_e(y).0.is_finite(), "Lab delta E is NaN or infinite");
     assert!(x.improved_delta_e(y).0.is_finite(), "Lab improved delta E is NaN or infinite");
 }
+
+use palette::{Lchuv, Luv, Oklab, Oklch};
+
+fn fin3(a: N32, b: N32, c: N32) -> bool {
+    a.0.is_finite() && b.0.is_finite() && c.0.is_finite()
+}
+
+/// XYZ -> Lab and Lab -> XYZ (f32 arithmetic bit-precise, cube root an arbitrary value of the right sign and magnitude
+/// class): finite for every in-range colour, on both sides of the CIE epsilon knee
+/// @fn <Lab<Wp,T> as FromColorUnclamped<Xyz<Wp,T>>>::from_color_unclamped
+/// @fn <Xyz<Wp,T> as FromColorUnclamped<Lab<Wp,T>>>::from_color_unclamped
+/// @bound all f32 X in [0,0.95047], Y in [0,1], Z in [0,1.08883]; L in [0,100], a, b in [-128,127]; each on a bound, zero or 1e-9 of the range inside
+#[kani::proof]
+pub fn c07_xyz_lab_f32_finite() {
+    let (x, y, z): (f32, f32, f32) = (kani::any(), kani::any(), kani::any());
+    kani::assume(within(x, 0.0, 0.95047) && within(y, 0.0, 1.0) && within(z, 0.0, 1.08883));
+    kani::cover!(true);
+    let lab = Lab::<D65, N32>::from_color_unclamped(Xyz::<D65, N32>::new(N32(x), N32(y), N32(z)));
+    assert!(fin3(lab.l, lab.a, lab.b), "XYZ -> Lab is NaN or infinite");
+    let (l, a, b): (f32, f32, f32) = (kani::any(), kani::any(), kani::any());
+    kani::assume(within(l, 0.0, 100.0) && within(a, -128.0, 127.0) && within(b, -128.0, 127.0));
+    let xyz = Xyz::<D65, N32>::from_color_unclamped(Lab::<D65, N32>::new(N32(l), N32(a), N32(b)));
+    assert!(fin3(xyz.x, xyz.y, xyz.z), "Lab -> XYZ is NaN or infinite");
+}
+
+/// Lab <-> Lch and Luv <-> Lchuv and Oklab <-> Oklch (polar forms; hypot exact, atan2 / sin / cos arbitrary values in
+/// range): finite for every in-range colour incl. zero chroma
+/// @fn <Lch<Wp,T> as FromColorUnclamped<Lab<Wp,T>>>::from_color_unclamped
+/// @fn <Lab<Wp,T> as FromColorUnclamped<Lch<Wp,T>>>::from_color_unclamped
+/// @fn <Lchuv<Wp,T> as FromColorUnclamped<Luv<Wp,T>>>::from_color_unclamped
+/// @fn <Oklch<T> as FromColorUnclamped<Oklab<T>>>::from_color_unclamped
+/// @fn <Oklab<T> as FromColorUnclamped<Oklch<T>>>::from_color_unclamped
+/// @bound all f32 components in the documented ranges (L 0..100, a/b -128..127, u -84..176, v -135..108, Oklab a/b -2..2, chroma 0..200, hue -360..360)
+#[kani::proof]
+pub fn c07_polar_forms_f32_finite() {
+    let (l, a, b): (f32, f32, f32) = (kani::any(), kani::any(), kani::any());
+    kani::assume(within(l, 0.0, 100.0) && within(a, -128.0, 127.0) && within(b, -128.0, 127.0));
+    kani::cover!(true);
+    let c = Lch::<D65, N32>::from_color_unclamped(Lab::<D65, N32>::new(N32(l), N32(a), N32(b)));
+    assert!(fin3(c.l, c.chroma, c.hue.into_inner()), "Lab -> Lch is NaN or infinite");
+    let (u, v): (f32, f32) = (kani::any(), kani::any());
+    kani::assume(within(u, -84.0, 176.0) && within(v, -135.0, 108.0));
+    let c = Lchuv::<D65, N32>::from_color_unclamped(Luv::<D65, N32>::new(N32(l), N32(u), N32(v)));
+    assert!(fin3(c.l, c.chroma, c.hue.into_inner()), "Luv -> Lchuv is NaN or infinite");
+    let (ol, oa, ob): (f32, f32, f32) = (kani::any(), kani::any(), kani::any());
+    kani::assume(within(ol, 0.0, 1.0) && within(oa, -2.0, 2.0) && within(ob, -2.0, 2.0));
+    let c = Oklch::<N32>::from_color_unclamped(Oklab::<N32>::new(N32(ol), N32(oa), N32(ob)));
+    assert!(fin3(c.l, c.chroma, c.hue.into_inner()), "Oklab -> Oklch is NaN or infinite");
+    let (ch, h): (f32, f32) = (kani::any(), kani::any());
+    kani::assume(within(ch, 0.0, 200.0) && within(h, -360.0, 360.0));
+    let c = Lab::<D65, N32>::from_color_unclamped(Lch::<D65, N32>::new(N32(l), N32(ch), N32(h)));
+    assert!(fin3(c.l, c.a, c.b), "Lch -> Lab is NaN or infinite");
+    let c = Oklab::<N32>::from_color_unclamped(Oklch::<N32>::new(N32(ol), N32(ch), N32(h)));
+    assert!(fin3(c.l, c.a, c.b), "Oklch -> Oklab is NaN or infinite");
+}
+
+/// XYZ -> Luv (f32): finite for every in-range XYZ colour incl. black (the u', v' denominators are guarded)
+/// @fn <Luv<Wp,T> as FromColorUnclamped<Xyz<Wp,T>>>::from_color_unclamped
+/// @bound all f32 X in [0,0.95047], Y in [0,1], Z in [0,1.08883], each on a bound, zero or 1e-9 of the range inside
+#[kani::proof]
+pub fn c07_xyz_to_luv_f32_finite() {
+    let (x, y, z): (f32, f32, f32) = (kani::any(), kani::any(), kani::any());
+    kani::assume(within(x, 0.0, 0.95047) && within(y, 0.0, 1.0) && within(z, 0.0, 1.08883));
+    kani::cover!(true);
+    let c = Luv::<D65, N32>::from_color_unclamped(Xyz::<D65, N32>::new(N32(x), N32(y), N32(z)));
+    assert!(fin3(c.l, c.u, c.v), "XYZ -> Luv is NaN or infinite");
+}
+
+/// linear sRGB -> Oklab and back (f32 matrices bit-precise, cube root an arbitrary value of the right sign): finite
+/// @fn <Oklab<T> as FromColorUnclamped<Rgb<Linear<Srgb>,T>>>::from_color_unclamped
+/// @fn <Rgb<Linear<Srgb>,T> as FromColorUnclamped<Oklab<T>>>::from_color_unclamped
+/// @bound all f32 RGB in [0,1]^3; Oklab L in [0,1], a, b in [-2,2]
+#[kani::proof]
+pub fn c07_linear_srgb_oklab_f32_finite() {
+    let (r, g, b): (f32, f32, f32) = (kani::any(), kani::any(), kani::any());
+    kani::assume(unit(r) && unit(g) && unit(b));
+    kani::cover!(true);
+    let c = Oklab::<N32>::from_color_unclamped(palette::LinSrgb::<N32>::new(N32(r), N32(g), N32(b)));
+    assert!(fin3(c.l, c.a, c.b), "linear sRGB -> Oklab is NaN or infinite");
+    let (ol, oa, ob): (f32, f32, f32) = (kani::any(), kani::any(), kani::any());
+    kani::assume(within(ol, 0.0, 1.0) && within(oa, -2.0, 2.0) && within(ob, -2.0, 2.0));
+    let c = palette::LinSrgb::<N32>::from_color_unclamped(Oklab::<N32>::new(N32(ol), N32(oa), N32(ob)));
+    assert!(fin3(c.red, c.green, c.blue), "Oklab -> linear sRGB is NaN or infinite");
+}
